@@ -249,6 +249,35 @@ def job_hkl(job, seed):
     return {'obligations': obs, 'candidates': cands, 'paths': 1}
 
 
+def job_hkl_elements(job, seed):
+    """Splitting hkl_vec into h, k, l is lossless whatever (dimensionless) scale its unit carries - Q in 1/nm with UB in
+    1/angstrom leaves hkl_vec with the unit angstrom/nm: value x unit of each index = value x unit of the component."""
+    from symex import core as C
+    from symsc import variable as V
+    from .symutil import fresh_run
+
+    sc, tof = _load()
+    fresh_run()
+    obs, cands = [], []
+    case = {'kind': 'hkl-elements'}
+    hv = [C.sym_var(f'h{i}') for i in range(3)]
+    for tag, unit in (('dimensionless', V.Unit()), ('angstrom/nm', V.parse_unit('angstrom') / V.parse_unit('nm')), ('symbolic scale', V.Unit.symbolic('s_hkl', V.Unit()))):
+        hkl = _mkvec(hv, unit)
+        el = _single(C.explore(lambda hkl=hkl: tof.hkl_elements_from_hkl_vec(hkl_vec=hkl)), obs, cands, f'hkl-elements[{tag}]', case)
+        if el is None:
+            continue
+        good = C.B.const(set(el) == {'h', 'k', 'l'})
+        if set(el) == {'h', 'k', 'l'}:
+            for i, k in enumerate('hkl'):
+                v = el[k]
+                good = good & C.B.const(v.unit is not None and v.unit.dim == unit.dim) & (v.values.reshape(-1)[0] * C.R(v.unit.scale_rat()) == hv[i] * C.R(unit.scale_rat()))
+        ob = C.prove(f'hkl-elements[{tag}]:h, k, l carry the same physical numbers as the components of hkl_vec', good)
+        obs.append(ob_dict(ob))
+        if ob.status == 'violated':
+            cands.append(('C08:hkl-elements', case, f'components of an hkl_vec with unit {tag} are not handed out unchanged'))
+    return {'obligations': obs, 'candidates': cands, 'paths': 1}
+
+
 def job_inv_model(job, seed):
     """The adjugate model of spatial.inv satisfies M.inv(M) = I (so the hook's contract is what the shim itself provides)."""
     from symex import core as C
@@ -280,6 +309,7 @@ def run(chk):
     run_jobs(chk, job_q, ['definition', 'units', 'rescale', 'rotation', 'definition:int64', 'definition:float32', 'units:int64'])
     run_jobs(chk, job_hkl, ['scalar', 'array'])
     run_jobs(chk, job_inv_model, [0])
+    run_jobs(chk, job_hkl_elements, [0])
     from . import shimval
     shimval.validate(chk, 'qvec', 40 if chk.tier == 'quick' else 240)
     chk.bounds = {'shapes': 'scalar operands', 'matrices': 'U, B, R arbitrary real 3x3 (non-singular R.UB); W = inv(R.UB) as 9 fresh variables with M.W = I'}
@@ -336,6 +366,13 @@ def replay_real(case):
                 bad.append(f'array sample_rotation: 2pi R UB hkl = {back} vs Q = {got}')
                 break
         el = rt.hkl_elements_from_hkl_vec(hkl_vec=hkl)
-        if [el['h'].value, el['k'].value, el['l'].value] != list(hkl.value):
+        if [el['h'].value, el['k'].value, el['l'].value] != list(hkl.value) or any(el[k_].unit != hkl.unit for k_ in 'hkl'):
             bad.append('hkl split')
+        # Q in 1/nm with UB in 1/angstrom: hkl_vec carries the unit angstrom/nm; the indices are the same physical numbers
+        q_nm = sc.vector(got * 10.0, unit='1/nm')
+        hkl_nm = rt.hkl_vec_from_Q_vec(Q_vec=q_nm, ub_matrix=ub, sample_rotation=Rv)
+        el_nm = rt.hkl_elements_from_hkl_vec(hkl_vec=hkl_nm)
+        idx = np.array([el_nm[k_].to(unit='one', copy=False).value if el_nm[k_].unit != sc.units.one else el_nm[k_].value for k_ in 'hkl'])
+        if not np.allclose(idx, hkl.value, rtol=1e-9, atol=1e-12 * np.linalg.norm(hkl.value)):
+            bad.append(f'h, k, l for Q given in 1/nm: {idx.tolist()} (unit {el_nm["h"].unit}), for the same Q in 1/angstrom: {list(hkl.value)}')
     return {'reproduced': bool(bad), 'detail': '; '.join(bad[:3])}
